@@ -3,7 +3,9 @@
    Properties/C05Tot.v. *)
 From Gots Require Import Base.Prelude Base.PacketLemmas Exec.ExecBase Exec.TotExec.
 From Gots Require Import Model.Packet Model.Create Model.AF Model.AFfn Model.Psi Model.Pat Model.Pmt Model.PmtDesc
-  Model.Pts Model.Pes Model.Ebp Model.Scte Model.ScteEnc Model.IO Model.PacketWriter Model.Bufio Model.Accumulator.
+  Model.Pts Model.Pes Model.Ebp Model.Scte Model.ScteEnc Model.IO Model.PacketWriter Model.Bufio Model.Accumulator
+  Model.SegDesc Model.State Model.Printers.
+From Gots Require Proofs.PrintersTotal.
 From Gots Require Proofs.HdrTotal Proofs.AFTotal Proofs.PesTotal Proofs.PatTotal Proofs.PmtDescTotal Proofs.PmtTotal
   Proofs.ScteTotal Proofs.EbpTotal Proofs.SyncProofs Proofs.BufioRefines Proofs.AccProofs Proofs.WriterProofs
   Proofs.WriterReadFrom Spec.IOSpec Spec.AccSpecDef.
@@ -17,20 +19,33 @@ Proof.
   rewrite forallb_forall in H. specialize (H x Hx). unfold is_byteb in H. unfold is_byte. apply N.ltb_lt. exact H.
 Qed.
 
-Lemma group_total f : (forall b n, is_bytes b -> f b n = COk) -> never_bad (group f).
+Lemma reply_e_ok e : reply_e COk e <> reply CPanic /\ reply_e COk e <> reply CDiverge.
+Proof. split; discriminate. Qed.
+Lemma group_total f pe : (forall b n, is_bytes b -> f b n = COk) -> never_bad (group f pe).
 Proof.
   intros H a. unfold group.
   destruct a as [|v1 [|v2 [|v3 t]]]; try (split; discriminate).
   - destruct v1 as [z|b|l]; try (split; discriminate).
     destruct (is_bytesb b) eqn:E; [|split; discriminate].
-    rewrite (H b 0%Z (is_bytesb_spec b E)). split; discriminate.
+    rewrite (H b 0%Z (is_bytesb_spec b E)). apply reply_e_ok.
   - destruct v1 as [z|b|l]; try (split; discriminate).
     destruct v2 as [n|b2|l2]; try (split; discriminate).
     destruct (is_bytesb b) eqn:E; [|split; discriminate].
-    rewrite (H b n (is_bytesb_spec b E)). split; discriminate.
+    rewrite (H b n (is_bytesb_spec b E)). apply reply_e_ok.
   - destruct v1 as [z|b|l]; try (split; discriminate).
     destruct v2 as [n|b2|l2]; split; discriminate.
 Qed.
+(* what a group answers on a byte string: [0 1 e] with e the accept / reject bit of its primary decoder *)
+Definition answers (f : bytes -> Z -> cls) (pe : bytes -> Z -> bool) : Prop :=
+  forall b n, is_bytesb b = true ->
+    group f pe [VB b; VI n] = VL [VI 0%Z; VI 1%Z; vbool (pe b n)] /\
+    group f pe [VB b] = VL [VI 0%Z; VI 1%Z; vbool (pe b 0%Z)].
+Lemma group_answers f pe : (forall b n, is_bytes b -> f b n = COk) -> answers f pe.
+Proof.
+  intros H b n E. unfold group. rewrite E, (H b n (is_bytesb_spec b E)), (H b 0%Z (is_bytesb_spec b E)). split; reflexivity.
+Qed.
+Lemma is_err_spec {A} (r : Res A) : is_err r = true <-> exists e, r = Err e.
+Proof. destruct r; cbn; split; try discriminate; try (intros [e' H]; discriminate); eauto. Qed.
 
 Lemma cl_ok {A} (r : Res A) : r <> Panic /\ r <> Diverge -> cl r = COk.
 Proof. destruct r; cbn; intros [P D]; congruence. Qed.
@@ -247,8 +262,12 @@ Proof. destruct r; cbn; intro H; first [reflexivity|contradiction]. Qed.
 Lemma cl_desc_value {A} (r : Res A) : PmtDescTotal.value r -> cl r = COk.
 Proof. intros [v ->]. reflexivity. Qed.
 
+Lemma cl_unit (r : Res unit) : r = Ok tt -> cl r = COk.
+Proof. intros ->. reflexivity. Qed.
 Lemma psi_accessors_ok b n : is_bytes b -> g_psi_accessors b n = COk.
-Proof. intros _. apply cl_total. apply PmtTotal.table_header_from_bytes_total. Qed.
+Proof.
+  intros _. unfold g_psi_accessors. cbv zeta. rewrite (cl_total _ (PmtTotal.table_header_from_bytes_total b)). reflexivity.
+Qed.
 
 Lemma pat_getters_ok p : pat_getters p = COk.
 Proof.
@@ -264,6 +283,7 @@ Qed.
 Lemma desc_calls_ok d : desc_calls d = COk.
 Proof.
   unfold desc_calls.
+  rewrite (cl_unit _ (PrintersTotal.desc_format_total d)), (cl_unit _ (PrintersTotal.desc_string_total d)).
   rewrite (cl_desc_value _ (PmtDescTotal.is_iframe_profile_total d)), (cl_desc_value _ (PmtDescTotal.is_dolby_atmos_total d)),
     (cl_desc_value _ (PmtDescTotal.is_dolby_vision_total d)), (cl_desc_value _ (PmtDescTotal.decode_dolby_vision_codec_total d)),
     (cl_desc_value _ (PmtDescTotal.decode_iso639_language_code_total d)), (cl_desc_value _ (PmtDescTotal.decode_iso639_audio_type_total d)),
@@ -272,13 +292,17 @@ Proof.
 Qed.
 Lemma es_calls_ok e : es_calls e = COk.
 Proof.
-  unfold es_calls. cbv zeta. rewrite (cl_desc_value _ (PmtDescTotal.max_bit_rate_total _)). cbn [andc].
+  unfold es_calls. cbv zeta. rewrite (cl_unit _ (PrintersTotal.es_string_total e)).
+  rewrite (cl_unit _ (eq_refl : Printers.stream_type_string (Pmt.stype e) = Ok tt)).
+  rewrite (cl_desc_value _ (PmtDescTotal.max_bit_rate_total _)). cbn [andc].
   apply allc_ok. exact desc_calls_ok.
 Qed.
 Lemma psi_pmt_ok b n : is_bytes b -> g_psi_pmt b n = COk.
 Proof.
   intro HB. unfold g_psi_pmt. apply on_ok_ok; [apply PmtTotal.total_iff; apply PmtTotal.new_pmt_total; exact HB|].
-  intros p _. apply allc_ok. exact es_calls_ok.
+  intros p _. rewrite (cl_unit _ (PrintersTotal.pmt_string_total p)). rewrite (allc_ok _ _ es_calls_ok). cbv zeta.
+  rewrite (cl_unit _ (PrintersTotal.pmt_string_total _)). cbn [andc].
+  destruct (Pmt.pids p); [reflexivity|]. apply cl_unit. apply PrintersTotal.pmt_string_total.
 Qed.
 Lemma psi_done_ok b n : is_bytes b -> g_psi_done b n = COk.
 Proof. intro HB. apply cl_total. apply PmtTotal.done_func_total. exact HB. Qed.
@@ -314,12 +338,18 @@ Proof.
   - constructor; [exact I|constructor].
 Qed.
 Lemma psi_readpmt_ok b n : is_bytes b -> g_psi_readpmt b n = COk.
-Proof. intro HB. apply cl_total. apply PmtTotal.read_pmt_total. exact HB. Qed.
+Proof.
+  intro HB. unfold g_psi_readpmt. apply on_ok_ok; [apply PmtTotal.total_iff; apply PmtTotal.read_pmt_total; exact HB|].
+  intros p _. apply cl_unit. apply PrintersTotal.pmt_string_total.
+Qed.
 
 (* ------------------------------------------------------------------ pes / ebp *)
 Lemma pes_new_ok b n : is_bytes b -> g_pes_new b n = COk.
 Proof.
-  intros _. unfold g_pes_new. rewrite (cl_ok _ (PesTotal.new_pes_header_no_panic b)). cbn [andc].
+  intros _. unfold g_pes_new.
+  rewrite (on_ok_ok (Pes.new_pes_header b) _ (PesTotal.new_pes_header_no_panic b))
+    by (intros h _; rewrite (cl_unit _ (PrintersTotal.pes_fmt_v_total h)), (cl_unit _ (PrintersTotal.pes_format_total h)); reflexivity).
+  cbn [andc].
   destruct (N.leb_spec 5 (len b)) as [G|G]; [|reflexivity].
   destruct (PesTotal.extract_time_panics_iff b) as (_ & [P _] & _).
   destruct (Pes.extract_time b) as [v|e| |] eqn:E; try reflexivity.
@@ -328,7 +358,9 @@ Proof.
     repeat match type of E with bind (match ?r with _ => _ end) _ = _ => destruct r; cbn [bind] in E; try discriminate E end.
 Qed.
 Lemma ebp_read_ok b n : is_bytes b -> g_ebp_read b n = COk.
-Proof. intros _. apply cl_ok. apply EbpTotal.read_ebp_guarded_total. Qed.
+Proof.
+  intros _. unfold g_ebp_read. apply on_ok_ok; [apply EbpTotal.read_ebp_guarded_total|]. intros fe _. reflexivity.
+Qed.
 
 (* ------------------------------------------------------------------ scte35 *)
 Lemma map_w8_bytes l : is_bytes (map w8 l).
@@ -337,7 +369,15 @@ Lemma scte_new_ok b n : is_bytes b -> g_scte_new b n = COk.
 Proof.
   intro HB. unfold g_scte_new.
   apply on_ok_ok; [apply ScteTotal.fine_spec; apply ScteTotal.new_scte35_total; exact HB|].
-  intros s _. apply cl_fine. apply ScteTotal.new_scte35_total. constructor; [unfold is_byte; lia|apply map_w8_bytes].
+  intros s _. rewrite (cl_unit _ (PrintersTotal.scte_string_total s)). cbv zeta.
+  rewrite allc_ok.
+  2:{ intro d. unfold seg_calls. destruct (PrintersTotal.stream_switch_signal_id_total d) as [o ->].
+      rewrite (cl_unit _ (PrintersTotal.seg_mid_total d)), (cl_unit _ (PrintersTotal.seg_components_total d)). reflexivity. }
+  rewrite (cl_unit _ (PrintersTotal.tracker_calls_total _)).
+  match goal with |- context [Scte.new_scte35 (0 :: ?l)] =>
+    assert (HB' : is_bytes (0 :: l)) by (constructor; [unfold is_byte; lia|apply map_w8_bytes]) end.
+  rewrite (cl_fine _ (ScteTotal.new_scte35_total _ HB')).
+  reflexivity.
 Qed.
 
 (* ------------------------------------------------------------------ streams *)
@@ -440,32 +480,39 @@ Lemma pkt_acc_ok b n : is_bytes b -> g_pkt_acc b n = COk.
 Proof. intro HB. unfold g_pkt_acc. apply acc_loop_ok; [apply chunks_ok; exact HB|constructor]. Qed.
 
 (* ------------------------------------------------------------------ every op of the table *)
-Lemma all_ops_total : Forall (fun o : op => never_bad (snd o)) TotExec.ops.
+Definition group_ok (g : string * (bytes -> Z -> cls) * (bytes -> Z -> bool)) : Prop :=
+  forall b n, is_bytes b -> snd (fst g) b n = COk.
+Lemma all_groups_ok : Forall group_ok TotExec.groups.
 Proof.
-  unfold TotExec.ops.
-  apply Forall_cons; [exact (group_total _ pkt_read_ok)|].
-  apply Forall_cons; [exact (group_total _ pkt_setpayload_ok)|].
-  apply Forall_cons; [exact (group_total _ pkt_setpayloadfn_ok)|].
-  apply Forall_cons; [exact (group_total _ pkt_setafc_ok)|].
-  apply Forall_cons; [exact (group_total _ af_getters_ok)|].
-  apply Forall_cons; [exact (group_total _ af_setters_ok)|].
-  apply Forall_cons; [exact (group_total _ affn_ok)|].
-  apply Forall_cons; [exact (group_total _ psi_accessors_ok)|].
-  apply Forall_cons; [exact (group_total _ psi_pat_ok)|].
-  apply Forall_cons; [exact (group_total _ psi_pmt_ok)|].
-  apply Forall_cons; [exact (group_total _ psi_done_ok)|].
-  apply Forall_cons; [exact (group_total _ psi_crc_ok)|].
-  apply Forall_cons; [exact (group_total _ psi_filter_ok)|].
-  apply Forall_cons; [exact (group_total _ psi_readpat_ok)|].
-  apply Forall_cons; [exact (group_total _ psi_readpmt_ok)|].
-  apply Forall_cons; [exact (group_total _ pes_new_ok)|].
-  apply Forall_cons; [exact (group_total _ ebp_read_ok)|].
-  apply Forall_cons; [exact (group_total _ scte_new_ok)|].
-  apply Forall_cons; [exact (group_total _ pkt_sync_ok)|].
-  apply Forall_cons; [exact (group_total _ pkt_acc_ok)|].
-  apply Forall_cons; [exact (group_total _ pkt_writer_ok)|].
+  unfold TotExec.groups, group_ok.
+  repeat (apply Forall_cons; [cbn [fst snd]; first
+    [exact pkt_read_ok|exact pkt_setpayload_ok|exact pkt_setpayloadfn_ok|exact pkt_setafc_ok|exact af_getters_ok
+    |exact af_setters_ok|exact affn_ok|exact psi_accessors_ok|exact psi_pat_ok|exact psi_pmt_ok|exact psi_done_ok
+    |exact psi_crc_ok|exact psi_filter_ok|exact psi_readpat_ok|exact psi_readpmt_ok|exact pes_new_ok|exact ebp_read_ok
+    |exact scte_new_ok|exact pkt_sync_ok|exact pkt_acc_ok|exact pkt_writer_ok]|]).
   apply Forall_nil.
 Qed.
+Lemma all_ops_total : Forall (fun o : op => never_bad (snd o)) TotExec.ops.
+Proof.
+  unfold TotExec.ops. apply Forall_map. eapply Forall_impl; [|exact all_groups_ok].
+  intros g H. cbn [snd]. apply group_total. exact H.
+Qed.
+(* every group answers [0 1 e], e = the accept / reject bit of its primary decoder model *)
+Lemma all_groups_answer : Forall (fun g => answers (snd (fst g)) (snd g)) TotExec.groups.
+Proof. eapply Forall_impl; [|exact all_groups_ok]. intros g H. apply group_answers. exact H. Qed.
+(* which inputs a group rejects: exactly those on which the model of its primary decoder returns an error *)
+Lemma reject_bits : forall b n,
+  (e_psi_pat b n = true <-> exists e, Pat.new_pat b = Err e) /\
+  (e_psi_pmt b n = true <-> exists e, Pmt.new_pmt b = Err e) /\
+  (e_psi_done b n = true <-> exists e, Pmt.done_func b = Err e) /\
+  (e_psi_crc b n = true <-> exists e, Pmt.extract_crc b = Err e) /\
+  (e_psi_readpmt b n = true <-> exists e, Pmt.read_pmt b (readpmt_pid b n) = Err e) /\
+  (e_pes_new b n = true <-> exists e, Pes.new_pes_header b = Err e) /\
+  (e_ebp_read b n = true <-> exists e, Ebp.ReadEncoderBoundaryPoint true b = Err e) /\
+  (e_scte_new b n = true <-> exists e, Scte.new_scte35 b = Err e) /\
+  (e_psi_accessors b n = true <-> exists e, Psi.table_header_from_bytes b = Err e) /\
+  (e_pkt_read b n = true <-> exists e, Packet.Payload_fn (pkt_of b) = Err e).
+Proof. intros b n. repeat split; apply is_err_spec. Qed.
 (* the table answers for exactly the 21 entry groups of goexec/total.go *)
 Lemma ops_names : map fst TotExec.ops =
   ["tot.pkt.read"; "tot.pkt.setpayload"; "tot.pkt.setpayloadfn"; "tot.pkt.setafc"; "tot.af.getters"; "tot.af.setters";
@@ -475,5 +522,9 @@ Lemma ops_names : map fst TotExec.ops =
 Proof. reflexivity. Qed.
 (* non-vacuity: the classes are distinct replies, and a group function that panics is answered [2 x] *)
 Lemma replies_distinct : reply COk <> reply CPanic /\ reply COk <> reply CDiverge /\ reply CPanic <> reply CDiverge /\
-  group (fun _ _ => CPanic) [VB [71]] = reply CPanic /\ group g_pkt_read [VB [71]; VI 15%Z] = reply COk.
-Proof. repeat split; try discriminate; reflexivity. Qed.
+  group (fun _ _ => CPanic) e_none [VB [71]] = reply CPanic /\
+  group g_pkt_read e_pkt_read [VB [71]; VI 15%Z] = VL [VI 0%Z; VI 1%Z; VI 1%Z] /\
+  group g_pkt_read e_pkt_read [VB [71; 0; 0; 16]; VI 15%Z] = VL [VI 0%Z; VI 1%Z; VI 0%Z] /\
+  group g_pes_new e_pes_new [VB []] = VL [VI 0%Z; VI 1%Z; VI 1%Z] /\
+  group g_pes_new e_pes_new [VB [0; 0; 1; 224; 0; 0; 128; 0; 0]] = VL [VI 0%Z; VI 1%Z; VI 0%Z].
+Proof. repeat split; try discriminate; vm_compute; reflexivity. Qed.
